@@ -11,7 +11,10 @@ from harness import core
 def main() -> int:
     bad = 0
     seen = set()
+    ready = set((core.VERIF / "harness" / "ready.txt").read_text().split())
     for f in sorted((core.VERIF / "harness" / "props").glob("C*.py")):
+        if f.stem not in ready:
+            continue
         mod = importlib.import_module(f"harness.props.{f.stem}")
         for ex in getattr(mod, "EXTRACTORS", []):
             if ex in seen:
